@@ -2495,7 +2495,14 @@ func (g *fhGen) gen(maxLen int) fhCase {
 //     --dry.
 func (g *fhGen) decorate(d *fhCase) {
 	rng := g.c.Rng
-	if g.chance(30) {
+	hasTwinStep := false
+	for _, st := range d.Steps {
+		hasTwinStep = hasTwinStep || st.Twin
+	}
+	// (no links together with a twin step: a link's target is written outside the project, where a fresh mtime is not rebased
+	// to the logical clock — the second activation of a timestamp task then sees a source "from the future" and runs: one
+	// false alarm in 24 000 thorough cases before this restriction)
+	if g.chance(30) && !hasTwinStep {
 		paths, _ := fhUniverse(*d)
 		roots := map[string]bool{"": true}
 		for _, t := range d.Tasks {
